@@ -18,6 +18,12 @@ THEOREMS = [
     "MC.einv_trial_exchange",
     "MC.einv_trial_grand_pos",
     "MC.einv_trial_grand_of",
+    "MC.einv_trial_of",
+    "MC.einv_trial_cell",
+    "MC.einv_trial_ham",
+    "MC.einv_trial_pos_any",
+    "MC.revertCalc_fresh_aux",
+    "MC.revertCalc_fresh_strip",
     "MC.one_eval_per_trial",
     "MC.reject_and_log_free",
     "MC.revertCalc_fresh_pos",
